@@ -565,7 +565,7 @@ Definition recv_item (w : world) (q : query) (c : list centry) (loc : eloc) : fa
 Definition bump_vals (zst : N -> bool) (comps : list N) (muts : list N) (d : N) (vals : list cval) : list cval :=
   map (fun '(c, v) => if existsb (N.eqb c) muts && negb (zst c)
                       then (fst v, snd v + d * N.of_nat (length (filter (N.eqb c) muts))) else v)
-      (combine comps vals).
+      (combine comps vals) ++ skipn (length comps) vals.   (* one column per component: the tail is empty *)
 Definition write_arch (w : world) (q : query) (d : N) (ai : N) (only_row : option N) : world :=
   match slab_get (w_archs w) ai with
   | None => w
@@ -829,6 +829,18 @@ Fixpoint run_handlers (hl : list key) (w : world) (it : qitem) (tag : N) (loc : 
 Definition fail_of {A} (r : res A) : world * option fail :=
   match r with ROk _ w => (w, None) | RFail f w => (w, Some f) end.
 
+(* the change an Insert / Remove / Spawn / Despawn event makes once its handlers have run
+   (world.rs:1110-1190); [loc] is the target's location, looked up before the handlers ran *)
+Definition builtin_effect (kind : ekind) (ev : evv) (loc : eloc) (w1 : world) : res unit :=
+  match kind with
+  | KNormal => ROk tt w1
+  | KInsert c => do (d, w2) <- traverse_insert w1 (fst loc) c;
+                 move_entity w2 loc d (Some (c, (ev_ser ev, ev_val ev)))
+  | KRemove c => do (d, w2) <- traverse_remove w1 (fst loc) c; move_entity w2 loc d None
+  | KSpawn => spawn_all w1
+  | KDespawn => do (_, w2) <- spawn_all w1; do (_, w3) <- remove_entity w2 loc; ROk tt (refresh_cursor w3)
+  end.
+
 (* one delivery: world.rs:1043-1194.  Returns (sent, world, unwinding?) and records a
    failure in the world's harness state through [k_fail]-free convention: the failure is
    returned alongside. *)
@@ -843,17 +855,7 @@ Definition deliver_one (it : qitem) (w : world) : list qitem * world * option fa
         if taken then (sent, w1, None) else
         match kind with
         | KNormal => (sent, ev_drop w1 (qi_targeted it) tag ev, None)
-        | KInsert c =>
-            let r := do (d, w2) <- traverse_insert w1 (fst loc) c;
-                     move_entity w2 loc d (Some (c, (ev_ser ev, ev_val ev))) in
-            let '(w3, f) := fail_of r in (sent, w3, f)
-        | KRemove c =>
-            let r := do (d, w2) <- traverse_remove w1 (fst loc) c; move_entity w2 loc d None in
-            let '(w3, f) := fail_of r in (sent, w3, f)
-        | KSpawn => let '(w3, f) := fail_of (spawn_all w1) in (sent, w3, f)
-        | KDespawn =>
-            let r := do (_, w2) <- spawn_all w1; do (_, w3) <- remove_entity w2 loc; ROk tt (refresh_cursor w3) in
-            let '(w3, f) := fail_of r in (sent, w3, f)
+        | _ => let '(w3, f) := fail_of (builtin_effect kind ev loc w1) in (sent, w3, f)
         end
     end in
   if qi_targeted it then
